@@ -183,6 +183,20 @@ var modules = []Module{
 		},
 	},
 	{
+		// multisig authorisation and ModifySigners validation (C06): the weight-sum, weight-range and signer-count tests
+		File: "Multisig.lean", NS: "LemoGen.Multisig",
+		Exprs: []ExprSpec{
+			{Pkg: "chain/transaction", Recv: "TxProcessor", Func: "checkSignersWeight", Kind: "ifcond", LHS: "totalWeight <", Nth: 0, Lean: "weightShortCond"},
+			{Pkg: "chain/transaction", Func: "judgeTotalWeight", Kind: "ifcond", LHS: "totalWeight <", Nth: 0, Lean: "totalShortCond"},
+			{Pkg: "chain/transaction", Func: "unmarshalAndVerifyData", Kind: "ifcond", LHS: "len(newSigners.Signers)", Nth: 0, Lean: "tooManySignersCond"},
+			{Pkg: "chain/transaction", Func: "unmarshalAndVerifyData", Kind: "ifcond", LHS: "v.Weight <", Nth: 0, Lean: "badWeightCond"},
+		},
+		Consts: []ConstSpec{
+			{Pkg: "chain/transaction", Name: "SignerWeightThreshold", Lean: "SignerWeightThreshold"},
+			{Pkg: "chain/transaction", Name: "MaxSignersNumber", Lean: "MaxSignersNumber"},
+		},
+	},
+	{
 		File: "NetCache.lean", NS: "LemoGen.NetCache",
 		Exprs: []ExprSpec{
 			{Pkg: "network", Recv: "ConfirmCache", Func: "Push", Kind: "ifcond", LHS: "len(c.cache)", Nth: 0, Lean: "confirmCacheFlushCond"},
